@@ -93,7 +93,9 @@ def impl(case):
     except AssertionError as e:
         return {'raised': 'AssertionError', 'msg': str(e)[:100]}
     out['drift'] = drift[:, 0, :].tolist()
+    guard = synth.InputGuard(trajectory=t)
     c = t.apply_drift_correction(**kw)
+    out['inputs_changed'] = guard.changed()
     out['cpos'] = np.array(c.positions).tolist()
     refmask = np.array([s in case['ref'] for s in case['species']])
     cd = np.array(c.displacements)
@@ -119,7 +121,7 @@ def impl(case):
 
 
 def oracle(case, out):
-    fs = []
+    fs = synth.inputs_clause(out, 'apply_drift_correction')
     if out.get('raised'):
         return [('drift/floating-rejects-species-objects', f'drift({_kw(case)}) raised {out["raised"]} for {case["objs"]} species objects: {out.get("msg")}')]
     if 'drift' not in out:
